@@ -15,3 +15,22 @@ def shareOf (r total e : Nat) : Nat :=
 def split (r : Nat) (es : List Nat) : List Nat := es.map (shareOf r es.sum)
 
 end QuaiVerif.Reward
+
+namespace QuaiVerif.Reward
+
+/-- the delay that counts: at most the liveness time, at least the no-penalty threshold -/
+def clampDelay (lt noPen since : Nat) : Nat :=
+  let s1 := if since > lt then lt else since
+  if s1 < noPen then noPen else s1
+
+/-- Time discount of a work share's reward (core/headerchain.go CalculateTimeDiscountedShareReward, the rule after the
+inclusion-depth fork): full reward up to `noPen` seconds between the signature time and the share's own timestamp,
+then linearly down to `pen/div` of it at the liveness time of the share's algorithm (`liveSha` for the SHA chains,
+`live` otherwise).  Times are 32-bit, the subtraction wraps. -/
+def timeDiscount (liveSha live noPen pen div : Nat) (sha : Bool) (reward sigTime ts : Nat) : Nat :=
+  let since := (ts + 2 ^ 32 - sigTime % 2 ^ 32) % 2 ^ 32
+  let lt := if sha then liveSha else live
+  let s2 := clampDelay lt noPen since
+  reward * (pen * (lt - noPen) + (div - pen) * (lt - s2)) / (div * (lt - noPen))
+
+end QuaiVerif.Reward
